@@ -1,5 +1,429 @@
-"""translator leaves of C02: the scalar arithmetic of the cross-validated estimators
-(entry formula k_aa + k_bb - k_ab - k_ba, fold average, prior regularisation)"""
+"""translator leaves of C02: the scalar arithmetic of the cross-validated estimators.
+
+Native py2lean leaves (translated straight from /repo's text; opaque calls):
+  crossEntry / poissonEntry   rdm = expand_dims(diag(k),0) + expand_dims(diag(k),1) - kernel - kernel.T
+  foldAverage                 rdm = np.einsum('ij->j', rdms) / rdms.shape[0]
+  regTrain / regTest          (m + prior_lambda * prior_weight) / (1 + prior_weight)
+
+Derived leaves (round 3).  Everything else the property depends on sits inside array
+expressions, call arguments, `return` expressions, loop headers and an `assert` — outside
+py2lean's `assign` anchor.  This module therefore first extracts, from the *current* source text
+(Python `ast`), the **scalar skeleton** of those places and writes it as tiny Python functions
+into `harness/leaves/_C02_derived.py`; py2lean then translates those functions as usual
+(`file` = that absolute path).  Nothing is cached: the derived file is rewritten on every run.
+Each extraction fails closed: an unexpected shape of the anchor produces a function calling
+`__underivable__(…)`, which py2lean reports as an untranslatable leaf = broken obligation.
+
+  single_norm        _calc_rdm_crossnobis_single: `return _extract_triu_(rdm) / meas1.shape[1]`
+  poisson_norm       calc_rdm_poisson_cv: `rdms.append(_extract_triu_(rdm) / measurements_train.shape[1])`
+  poisson_fold_mean  calc_rdm_poisson_cv: `rdm = np.mean(np.array(rdms), axis=0)`  -> fold_sum / n_folds
+                     (only this exact reduction is accepted: `rdms[-1]`, np.sum, np.median … are underivable)
+  pair_cov           calc_rdm_crossnobis: argument of `np.linalg.inv` inside the call of
+                     `_calc_rdm_crossnobis_single`: `(variances[i_fold] + variances[j_fold]) / 2`
+  cross_kernel       `kernel = meas1 @ noise @ meas2.T`  -> summand  meas1 * noise * meas2   (@ -> *, .T dropped)
+  poisson_kernel     `kernel = measurements_train @ np.log(measurements_test).T` -> train * log_test
+                     (np.log(measurements_test) opaque: a swap of the roles is untranslatable)
+  centre_train / centre_test / centre_fold
+                     `X -= X.mean(axis=1, keepdims=True)` under `if remove_mean:` -> x - row_mean
+  counts_ok          _gen_default_cv_descriptor: `assert np.all(counts == counts[0])` -> 1 if count == counts_0 else 0
+  loops              header of the fold loops as (start, stop) of a `range`:
+                       cross_loop_*   `for i_fold, fold in enumerate(cv_folds)`        (single-precision branch)
+                       poisson_loop_* `for i_fold in range(len(cv_folds))`
+                       list_loop_*    `for i, i_fold in enumerate(cv_folds)`          (collecting fold means)
+                       pair_outer_*   `for i_fold in range(len(cv_folds))`
+                       pair_inner_*   `for j_fold in range(i_fold + 1, len(cv_folds))`
+                       pair_guard     `if i_fold != j_fold`                          -> 1 / 0
+  noise_index        `variances.append(np.linalg.inv(noise[i]))` -> i   (precision i belongs to fold i)
+  test_is_fold / train_excludes_fold
+                     `subset_obs(cv_descriptor, fold)` / `subset_obs(cv_descriptor, np.setdiff1d(cv_folds, fold))`:
+                     1 when the loop passes exactly these selectors (constant leaves; anything else underivable)
+"""
+import ast
+import os
+
+SRC = os.environ.get('RSA_REPO_SRC', '/repo/src/rsatoolbox')
+HERE = os.path.dirname(os.path.abspath(__file__))
+DERIVED = os.path.join(HERE, '_C02_derived.py')
+CALC = 'rdm/calc.py'
+
+
+class Underivable(Exception):
+    pass
+
+
+def _func(name):
+    tree = ast.parse(open(os.path.join(SRC, CALC)).read())
+    for node in ast.walk(tree):
+        if isinstance(node, ast.FunctionDef) and node.name == name:
+            return node
+    raise Underivable(f'{CALC}: function {name} not found')
+
+
+def _one(nodes, what):
+    nodes = list(nodes)
+    if len(nodes) != 1:
+        raise Underivable(f'expected exactly one {what}, found {len(nodes)}')
+    return nodes[0]
+
+
+class _Subst(ast.NodeTransformer):
+    """replace whole sub-expressions (matched by their unparsed text) by names"""
+
+    def __init__(self, subs):
+        self.subs = subs
+        self.used = set()
+
+    def visit(self, node):
+        if isinstance(node, ast.expr):
+            t = ast.unparse(node)
+            if t in self.subs:
+                self.used.add(t)
+                return ast.Name(id=self.subs[t], ctx=ast.Load())
+        return self.generic_visit(node)
+
+
+def _substituted(expr, subs, allowed):
+    tr = _Subst(subs)
+    new = tr.visit(ast.parse(ast.unparse(expr), mode='eval').body)
+    missing = [k for k in subs if k not in tr.used]
+    if missing:
+        raise Underivable(f'sub-expression(s) {missing} not found in `{ast.unparse(expr)}`')
+    names = {n.id for n in ast.walk(new) if isinstance(n, ast.Name)}
+    calls = [ast.unparse(n) for n in ast.walk(new) if isinstance(n, ast.Call)]
+    if calls or not names <= set(allowed):
+        raise Underivable(f'`{ast.unparse(expr)}` is not scalar arithmetic over {sorted(allowed)}')
+    return ast.unparse(ast.fix_missing_locations(new))
+
+
+def _assign(fn, target):
+    hits = [n for n in ast.walk(fn) if isinstance(n, ast.Assign) and len(n.targets) == 1
+            and ast.unparse(n.targets[0]) == target]
+    return _one(hits, f'assignment to {target} in {fn.name}')
+
+
+def _calls(node, name):
+    return [n for n in ast.walk(node) if isinstance(n, ast.Call) and ast.unparse(n.func) == name]
+
+
+# ------------------------------------------------------------------ the extractions
+
+def single_norm():
+    fn = _func('_calc_rdm_crossnobis_single')
+    ret = _one([n for n in ast.walk(fn) if isinstance(n, ast.Return)], 'return in _calc_rdm_crossnobis_single')
+    return _substituted(ret.value, {'_extract_triu_(rdm)': 'entry', 'meas1.shape[1]': 'meas1_shape_1'},
+                        ['entry', 'meas1_shape_1'])
+
+
+def poisson_norm():
+    fn = _func('calc_rdm_poisson_cv')
+    call = _one(_calls(fn, 'rdms.append'), 'rdms.append(...) in calc_rdm_poisson_cv')
+    if len(call.args) != 1 or call.keywords:
+        raise Underivable('rdms.append takes one argument')
+    return _substituted(call.args[0], {'_extract_triu_(rdm)': 'entry',
+                                       'measurements_train.shape[1]': 'measurements_train_shape_1'},
+                        ['entry', 'measurements_train_shape_1'])
+
+
+def poisson_fold_mean():
+    fn = _func('calc_rdm_poisson_cv')
+    # the assignment to `rdm` after the loop (module-level statement of the function body)
+    hits = [n for n in fn.body if isinstance(n, ast.Assign) and ast.unparse(n.targets[0]) == 'rdm']
+    node = _one(hits, 'assignment to rdm after the fold loop of calc_rdm_poisson_cv')
+    text = ast.unparse(node.value)
+    if text == 'np.mean(np.array(rdms), axis=0)' or text == 'np.array(rdms).mean(axis=0)':
+        return 'fold_sum / n_folds'
+    if text in ("np.einsum('ij->j', rdms) / rdms.shape[0]", 'np.sum(np.array(rdms), axis=0) / len(rdms)'):
+        return 'fold_sum / n_folds'
+    raise Underivable(f'fold reduction `{text}` is not the mean over all fold estimates')
+
+
+def _single_call_list_branch():
+    fn = _func('calc_rdm_crossnobis')
+    calls = _calls(fn, '_calc_rdm_crossnobis_single')
+    if len(calls) != 2:
+        raise Underivable(f'expected two calls of _calc_rdm_crossnobis_single, found {len(calls)}')
+    calls.sort(key=lambda n: n.lineno)
+    return fn, calls[0], calls[1]
+
+
+def pair_cov():
+    _, _, call = _single_call_list_branch()
+    if len(call.args) != 3:
+        raise Underivable('list-branch call of _calc_rdm_crossnobis_single does not have 3 arguments')
+    if [ast.unparse(a) for a in call.args[:2]] != ['measurements[i_fold]', 'measurements[j_fold]']:
+        raise Underivable(f'fold means passed as {[ast.unparse(a) for a in call.args[:2]]}')
+    inv = call.args[2]
+    if not (isinstance(inv, ast.Call) and ast.unparse(inv.func) == 'np.linalg.inv' and len(inv.args) == 1):
+        raise Underivable(f'pair precision `{ast.unparse(inv)}` is not np.linalg.inv(<one argument>)')
+    return _substituted(inv.args[0], {'variances[i_fold]': 'v_i', 'variances[j_fold]': 'v_j'}, ['v_i', 'v_j'])
+
+
+class _Scalarise(ast.NodeTransformer):
+    """`@` -> `*`, `.T` dropped: the summand of a matrix product"""
+
+    def visit_BinOp(self, node):
+        self.generic_visit(node)
+        if isinstance(node.op, ast.MatMult):
+            return ast.BinOp(left=node.left, op=ast.Mult(), right=node.right)
+        return node
+
+    def visit_Attribute(self, node):
+        self.generic_visit(node)
+        if node.attr == 'T':
+            return node.value
+        return node
+
+
+def _kernel(fn_name):
+    node = _assign(_func(fn_name), 'kernel')
+    new = _Scalarise().visit(ast.parse(ast.unparse(node.value), mode='eval').body)
+    return ast.unparse(ast.fix_missing_locations(new))
+
+
+def cross_kernel():
+    text = _kernel('_calc_rdm_crossnobis_single')
+    e = ast.parse(text, mode='eval').body
+    names = [n.id for n in ast.walk(e) if isinstance(n, ast.Name)]
+    if sorted(names) != ['meas1', 'meas2', 'noise'] or any(isinstance(n, ast.Call) for n in ast.walk(e)):
+        raise Underivable(f'kernel `{text}` is not a product of meas1, noise, meas2')
+    return text
+
+
+def poisson_kernel():
+    text = _kernel('calc_rdm_poisson_cv')      # measurements_train * np.log(measurements_test)
+    e = ast.parse(text, mode='eval').body
+    new = _Subst({'np.log(measurements_test)': 'log_test'})
+    e2 = new.visit(e)
+    out = ast.unparse(ast.fix_missing_locations(e2))
+    names = sorted(n.id for n in ast.walk(e2) if isinstance(n, ast.Name))
+    if names != ['log_test', 'measurements_train'] or any(isinstance(n, ast.Call) for n in ast.walk(e2)):
+        raise Underivable(f'kernel `{text}` is not measurements_train @ np.log(measurements_test).T')
+    return out
+
+
+def _centre(var):
+    fn = _func('calc_rdm_crossnobis')
+    hits = [n for n in ast.walk(fn) if isinstance(n, ast.AugAssign) and ast.unparse(n.target) == var]
+    node = _one(hits, f'in-place update of {var}')
+    if not isinstance(node.op, ast.Sub) or ast.unparse(node.value) != f'{var}.mean(axis=1, keepdims=True)':
+        raise Underivable(f'`{ast.unparse(node)}` is not `{var} -= {var}.mean(axis=1, keepdims=True)`')
+    # it must sit directly under `if remove_mean:`
+    for parent in ast.walk(fn):
+        if isinstance(parent, ast.If) and node in parent.body:
+            if ast.unparse(parent.test) != 'remove_mean' or parent.orelse:
+                raise Underivable(f'centring of {var} is guarded by `{ast.unparse(parent.test)}`')
+            return 'x - row_mean'
+    raise Underivable(f'centring of {var} is not under `if remove_mean:`')
+
+
+def counts_ok():
+    fn = _func('_gen_default_cv_descriptor')
+    node = _one([n for n in ast.walk(fn) if isinstance(n, ast.Assert)], 'assert in _gen_default_cv_descriptor')
+    t = node.test
+    if not (isinstance(t, ast.Call) and ast.unparse(t.func) == 'np.all' and len(t.args) == 1
+            and isinstance(t.args[0], ast.Compare)):
+        raise Underivable(f'assert test `{ast.unparse(t)}` is not np.all(<comparison>)')
+    cmp_ = t.args[0]
+    src = [n for n in ast.walk(fn) if isinstance(n, ast.Assign) and 'counts' in ast.unparse(n.targets[0])]
+    if len(src) != 1 or ast.unparse(src[0].value) != 'np.unique(desc, return_counts=True)':
+        raise Underivable('counts is not the second result of np.unique(desc, return_counts=True)')
+    body = _substituted(cmp_, {'counts[0]': 'counts_0', 'counts': 'count'}, ['count', 'counts_0'])
+    return f'1 if {body} else 0'
+
+
+def _loop_bounds(for_node, seq):
+    """(start, stop) as Python source over the name `n` (= len(seq)), for the accepted loop headers"""
+    it = ast.unparse(for_node.iter)
+    if it in (f'enumerate({seq})', seq, f'range(len({seq}))', f'range(0, len({seq}))'):
+        return '0', 'n'
+    if isinstance(for_node.iter, ast.Call) and ast.unparse(for_node.iter.func) == 'range' \
+            and len(for_node.iter.args) == 2 and not for_node.iter.keywords:
+        a, b = for_node.iter.args
+        sub = {f'len({seq})': 'n'}
+        def conv(e):
+            tr = _Subst(sub)
+            new = tr.visit(ast.parse(ast.unparse(e), mode='eval').body)
+            return ast.unparse(ast.fix_missing_locations(new))
+        return conv(a), conv(b)
+    raise Underivable(f'loop header `for … in {it}` is not a full pass over {seq}')
+
+
+def _for_loops(fn):
+    return sorted([n for n in ast.walk(fn) if isinstance(n, ast.For)], key=lambda n: n.lineno)
+
+
+def _scalar_over(text, allowed):
+    e = ast.parse(text, mode='eval').body
+    names = {n.id for n in ast.walk(e) if isinstance(n, ast.Name)}
+    if not names <= set(allowed) or any(isinstance(n, ast.Call) for n in ast.walk(e)):
+        raise Underivable(f'`{text}` is not arithmetic over {sorted(allowed)}')
+    return text
+
+
+def _cross_loops():
+    fn = _func('calc_rdm_crossnobis')
+    loops = _for_loops(fn)
+    if len(loops) != 4:
+        raise Underivable(f'expected 4 for-loops in calc_rdm_crossnobis, found {len(loops)}')
+    return fn, loops
+
+
+def cross_loop(which):
+    _, loops = _cross_loops()
+    lo, hi = _loop_bounds(loops[0], 'cv_folds')
+    if ast.unparse(loops[0].target) != '(i_fold, fold)':
+        raise Underivable('loop variables of the single-precision branch changed')
+    return _scalar_over(lo if which == 'start' else hi, ['n'])
+
+
+def list_loop(which):
+    _, loops = _cross_loops()
+    lo, hi = _loop_bounds(loops[1], 'cv_folds')
+    if ast.unparse(loops[1].target) != '(i, i_fold)':
+        raise Underivable('loop variables of the fold-mean loop changed')
+    return _scalar_over(lo if which == 'start' else hi, ['n'])
+
+
+def pair_outer(which):
+    _, loops = _cross_loops()
+    if ast.unparse(loops[2].target) != 'i_fold' or loops[3] not in loops[2].body:
+        raise Underivable('pair loop nesting changed')
+    lo, hi = _loop_bounds(loops[2], 'cv_folds')
+    return _scalar_over(lo if which == 'start' else hi, ['n'])
+
+
+def pair_inner(which):
+    _, loops = _cross_loops()
+    if ast.unparse(loops[3].target) != 'j_fold':
+        raise Underivable('inner pair loop variable changed')
+    lo, hi = _loop_bounds(loops[3], 'cv_folds')
+    return _scalar_over(lo, ['n', 'i_fold']) if which == 'start' else _scalar_over(hi, ['n', 'i_fold'])
+
+
+def pair_guard():
+    _, loops = _cross_loops()
+    body = loops[3].body
+    if len(body) == 1 and isinstance(body[0], ast.If) and not body[0].orelse:
+        test = ast.unparse(body[0].test)
+        _scalar_over(test, ['i_fold', 'j_fold'])
+        inner = body[0].body
+    else:
+        test, inner = None, body
+    # the guarded body must compute and append one fold-pair estimate
+    if not any(_calls(s, '_calc_rdm_crossnobis_single') for s in inner) \
+            or not any(_calls(s, 'rdms.append') for s in inner):
+        raise Underivable('inner pair loop does not append one _calc_rdm_crossnobis_single estimate')
+    return f'1 if {test} else 0' if test else '1'
+
+
+def noise_index():
+    _, loops = _cross_loops()
+    subs = [n for n in ast.walk(loops[1]) if isinstance(n, ast.Subscript) and ast.unparse(n.value) == 'noise']
+    node = _one(subs, 'use of noise[...] in the fold-mean loop')
+    app = _one(_calls(loops[1], 'variances.append'), 'variances.append in the fold-mean loop')
+    if ast.unparse(app.args[0]) != f'np.linalg.inv({ast.unparse(node)})':
+        raise Underivable(f'variances.append({ast.unparse(app.args[0])}) is not the inverse of noise[...]')
+    return _scalar_over(ast.unparse(node.slice), ['i'])
+
+
+def poisson_loop(which):
+    fn = _func('calc_rdm_poisson_cv')
+    loop = _one(_for_loops(fn), 'for-loop in calc_rdm_poisson_cv')
+    lo, hi = _loop_bounds(loop, 'cv_folds')
+    if ast.unparse(loop.target) != 'i_fold':
+        raise Underivable('loop variable of calc_rdm_poisson_cv changed')
+    fold = [n for n in loop.body if isinstance(n, ast.Assign) and ast.unparse(n.targets[0]) == 'fold']
+    if len(fold) != 1 or ast.unparse(fold[0].value) != 'cv_folds[i_fold]':
+        raise Underivable('fold is not cv_folds[i_fold]')
+    return _scalar_over(lo if which == 'start' else hi, ['n'])
+
+
+def _selectors(fn_name, ds):
+    fn = _func(fn_name)
+    loop = _for_loops(fn)[0]
+    te = _one([n for n in ast.walk(loop) if isinstance(n, ast.Assign) and ast.unparse(n.targets[0]) == 'data_test'],
+              'assignment to data_test')
+    trn = _one([n for n in ast.walk(loop) if isinstance(n, ast.Assign) and ast.unparse(n.targets[0]) == 'data_train'],
+               'assignment to data_train')
+    return ast.unparse(te.value), ast.unparse(trn.value)
+
+
+def test_is_fold(fn_name, ds):
+    te, _ = _selectors(fn_name, ds)
+    if te != f'{ds}.subset_obs(cv_descriptor, fold)':
+        raise Underivable(f'test set is `{te}`')
+    return '1'
+
+
+def train_excludes_fold(fn_name, ds):
+    _, trn = _selectors(fn_name, ds)
+    if trn != f'{ds}.subset_obs(cv_descriptor, np.setdiff1d(cv_folds, fold))':
+        raise Underivable(f'training set is `{trn}`')
+    return '1'
+
+
+# ------------------------------------------------------------------ write the derived file
+
+_SPECS = []       # (python name, lean name, params (ordered dict), ret)
+
+
+def _derive():
+    out = ['# DERIVED by harness/leaves/C02.py from the source tree under check - do not edit', '']
+
+    def emit(name, lean, params, ret, body_fn):
+        try:
+            body = body_fn()
+        except Exception as exc:  # noqa: BLE001  (fail closed: any surprise = underivable)
+            body = '__underivable__(' + repr(str(exc)) + ')'
+        out.append(f'def {name}({", ".join(params)}):')
+        out.append(f'    return {body}')
+        out.append('')
+        _SPECS.append(dict(name=lean, file=DERIVED, func=name, kind='func', params=dict(params), ret=ret))
+
+    A2 = lambda a, b: {a: 'A', b: 'A'}      # noqa: E731
+    emit('single_norm', 'singleNorm', A2('entry', 'meas1_shape_1'), 'A', single_norm)
+    emit('poisson_norm', 'poissonNorm', A2('entry', 'measurements_train_shape_1'), 'A', poisson_norm)
+    emit('poisson_fold_mean', 'poissonFoldMean', A2('fold_sum', 'n_folds'), 'A', poisson_fold_mean)
+    emit('pair_cov', 'pairCov', A2('v_i', 'v_j'), 'A', pair_cov)
+    emit('cross_kernel', 'crossKernel', {'meas1': 'A', 'noise': 'A', 'meas2': 'A'}, 'A', cross_kernel)
+    emit('poisson_kernel', 'poissonKernel', A2('measurements_train', 'log_test'), 'A', poisson_kernel)
+    for var, lean in (('measurements_train', 'centreTrain'), ('measurements_test', 'centreTest'),
+                      ('ma', 'centreFold')):
+        emit('centre_' + var, lean, A2('x', 'row_mean'), 'A', lambda var=var: _centre(var))
+    emit('counts_ok', 'countsOk', {'count': 'Nat', 'counts_0': 'Nat'}, 'Nat', counts_ok)
+    N1 = {'n': 'Nat'}
+    emit('cross_loop_start', 'crossLoopStart', N1, 'Nat', lambda: cross_loop('start'))
+    emit('cross_loop_stop', 'crossLoopStop', N1, 'Nat', lambda: cross_loop('stop'))
+    emit('poisson_loop_start', 'poissonLoopStart', N1, 'Nat', lambda: poisson_loop('start'))
+    emit('poisson_loop_stop', 'poissonLoopStop', N1, 'Nat', lambda: poisson_loop('stop'))
+    emit('list_loop_start', 'listLoopStart', N1, 'Nat', lambda: list_loop('start'))
+    emit('list_loop_stop', 'listLoopStop', N1, 'Nat', lambda: list_loop('stop'))
+    emit('pair_outer_start', 'pairOuterStart', N1, 'Nat', lambda: pair_outer('start'))
+    emit('pair_outer_stop', 'pairOuterStop', N1, 'Nat', lambda: pair_outer('stop'))
+    N2 = {'i_fold': 'Nat', 'n': 'Nat'}
+    emit('pair_inner_start', 'pairInnerStart', N2, 'Nat', lambda: pair_inner('start'))
+    emit('pair_inner_stop', 'pairInnerStop', N2, 'Nat', lambda: pair_inner('stop'))
+    emit('pair_guard', 'pairGuard', {'i_fold': 'Nat', 'j_fold': 'Nat'}, 'Nat', pair_guard)
+    emit('noise_index', 'noiseIndex', {'i': 'Nat'}, 'Nat', noise_index)
+    N0 = {}
+    emit('cross_test_is_fold', 'crossTestIsFold', N0, 'Nat',
+         lambda: test_is_fold('calc_rdm_crossnobis', 'datasetCopy'))
+    emit('cross_train_excludes_fold', 'crossTrainExcludesFold', N0, 'Nat',
+         lambda: train_excludes_fold('calc_rdm_crossnobis', 'datasetCopy'))
+    emit('poisson_test_is_fold', 'poissonTestIsFold', N0, 'Nat',
+         lambda: test_is_fold('calc_rdm_poisson_cv', 'dataset'))
+    emit('poisson_train_excludes_fold', 'poissonTrainExcludesFold', N0, 'Nat',
+         lambda: train_excludes_fold('calc_rdm_poisson_cv', 'dataset'))
+
+    text = '\n'.join(out)
+    if not (os.path.exists(DERIVED) and open(DERIVED).read() == text):
+        with open(DERIVED + '.tmp', 'w') as f:
+            f.write(text)
+        os.replace(DERIVED + '.tmp', DERIVED)
+
+
+_derive()
+
 _DIAG = {"np.expand_dims(np.diag(kernel), 0)": "k_bb",
          "np.expand_dims(np.diag(kernel), 1)": "k_aa"}
 _ENTRY_PARAMS = {'k_bb': 'A', 'k_aa': 'A', 'kernel': 'A', 'kernel_T': 'A'}
@@ -21,4 +445,4 @@ LEAVES = [
     dict(name='regTest', file='rdm/calc.py', func='calc_rdm_poisson_cv', kind='assign',
          target='measurements_test', nth=0, count=1,
          params={'measurements_test': 'A', 'prior_lambda': 'A', 'prior_weight': 'A'}, ret='A'),
-]
+] + _SPECS
